@@ -49,4 +49,18 @@ Cont2Types == IF ~Deep THEN {} ELSE
     Ty("frozenset", <<Ty("tuple_fix", <<Sc("int"), Sc("str")>>, <<>>)>>, <<>>)}
 AllTypes == FlatTypes \cup Cont1Types \cup Cont2Types
 
+\* types served by a user supplied loader (Load.tla "user"): alone, in unions before / behind builtin cases, in containers
+UserT == Ty("user", <<>>, <<"int">>)          \* gamma: a NewType (sorts behind the builtin classes in a normalised union)
+UserE == Ty("user", <<>>, <<"int", "early">>) \* gamma: a class whose textual form sorts in front of them
+UserFlat == {UserE, Un(<<UserE, Sc("str")>>), Un(<<Sc("str"), UserE>>), Un(<<UserE, Sc("str"), Sc("None")>>), Un(<<UserE, Sc("float")>>),
+             Un(<<UserE, UserT>>), Opt(UserE), Un(<<Lit(<<"s_a">>), UserE>>)} \cup
+            {UserT, Un(<<UserT, Sc("str")>>), Un(<<Sc("str"), UserT>>), Opt(UserT), Un(<<UserT, Sc("str"), Sc("None")>>),
+             Un(<<Sc("None"), UserT, Sc("bool")>>), Un(<<UserT, Sc("float")>>), Un(<<Sc("float"), UserT>>), Un(<<Lit(<<"s_a">>), UserT>>),
+             Un(<<Sc("Decimal"), UserT, Sc("str")>>), Ty("newtype", <<Un(<<UserT, Sc("str")>>)>>, <<>>)}
+UserCont == {Ty("list", <<Un(<<UserE, Sc("str")>>)>>, <<>>), Ty("dict", <<Sc("str"), Un(<<UserE, Sc("str")>>)>>, <<>>),
+             Ty("list", <<UserT>>, <<>>), Ty("list", <<Un(<<UserT, Sc("str")>>)>>, <<>>), Ty("dict", <<Sc("str"), UserT>>, <<>>),
+             Ty("tuple_fix", <<UserT, Sc("str")>>, <<>>), Ty("dict", <<UserT, Sc("int")>>, <<>>), Ty("set", <<Un(<<Sc("str"), UserT>>)>>, <<>>),
+             Ty("tuple_var", <<Opt(UserT)>>, <<>>)}
+UserTypes == UserFlat \cup UserCont
+
 =======================================================================================
